@@ -107,6 +107,11 @@ type gl struct {
 	anyCtor     map[string]string // static Go type of a value stored into an `any` -> constructor
 	extVocab    map[string]string // "pkg.Func" of another module with a GoRt counterpart (its semantics is assumed)
 	outParams   bool              // parameters of type []*int are lists of pointee values, copied in and handed back
+	bufLocals   map[types.Object]bool // locals holding bufio.NewReader(r): the reader state itself
+	funcAlias   map[string]string // Go function name -> translated name when they differ
+	ioReaderBuf bool // an io.Reader parameter wrapped by bufio.NewReader is the abstract BufRd
+	yield2      bool // the iter.Seq2 closure being translated yields pairs
+	yield2T     [2]types.Type
 	runeAsByte  map[types.Object]bool // rune loop variables read as bytes (see rangeStmt)
 	selfExts    []string // ext parameters a self-recursive function is declared to take (fixed up front)
 	selfRec     bool   // the function being translated calls itself: its body is wrapped in a match on `fuel`
@@ -204,6 +209,31 @@ func (g *gl) accumStmt(w *wr, c *ast.CallExpr) bool {
 		g.die(c, "accumulator method "+sel.Sel.Name)
 	}
 	return true
+}
+
+// yieldPair: the pair handed to an iter.Seq2 consumer (nil read at the parameter's type)
+func (g *gl) yieldPair(c *ast.CallExpr) string {
+	var parts []string
+	for i, a := range c.Args {
+		e := g.expr(a)
+		if isNilIdent(a) {
+			if n := g.nilOf(g.yield2T[i]); n != "" {
+				e = atomE(n)
+			}
+		}
+		parts = append(parts, e.opnd())
+	}
+	return "(" + strings.Join(parts, ", ") + ")"
+}
+
+// isStrPtr: *string (a pointer to a local string that is only read afterwards: Option of the string)
+func isStrPtr(t types.Type) bool {
+	p, ok := t.(*types.Pointer)
+	if !ok {
+		return false
+	}
+	b, ok := p.Elem().Underlying().(*types.Basic)
+	return ok && b.Kind() == types.String
 }
 
 // isOutList: []*int with outParams on (copy-in / copy-out of the pointees; sound because the call sites pass the
@@ -641,6 +671,14 @@ func (g *gl) leanType(t types.Type) string {
 	if isAccum(t) {
 		return "List UInt8"
 	}
+	if isStrPtr(t) {
+		return "Option (List UInt8)"
+	}
+	if g.ioReaderBuf {
+		if n, ok := t.(*types.Named); ok && n.Obj().Pkg() != nil && n.Obj().Pkg().Path() == "io" && n.Obj().Name() == "Reader" {
+			return "BufRd"
+		}
+	}
 	if it, ok := t.Underlying().(*types.Interface); ok && it.NumMethods() == 0 && g.anyLean != "" {
 		return g.anyLean
 	}
@@ -722,6 +760,9 @@ func paren(s string) string {
 func (g *gl) zero(t types.Type) string {
 	if g.isHeapPtr(t) || g.isLHeapPtr(t) {
 		return "(-1 : Int)"
+	}
+	if isStrPtr(t) {
+		return "none"
 	}
 	if g.isRecPtr(t) {
 		return "none"
@@ -1077,6 +1118,9 @@ func (g *gl) expr(e ast.Expr) ex {
 		return g.ident(v)
 	case *ast.CompositeLit:
 		t := g.typeOf(v)
+		if st, ok := t.Underlying().(*types.Struct); ok && st.NumFields() > 0 && len(v.Elts) == 0 && g.yield2 {
+			return atomE(g.zero(st)) // T{}: the zero value
+		}
 		if st, ok := t.Underlying().(*types.Struct); ok && st.NumFields() > 0 && len(v.Elts) > 0 {
 			if _, keyed := v.Elts[0].(*ast.KeyValueExpr); keyed {
 				parts := make([]string, st.NumFields())
@@ -1230,6 +1274,10 @@ func (g *gl) expr(e ast.Expr) ex {
 			return ex{text: "!" + g.expr(v.X).arg()}
 		}
 		if v.Op == token.AND {
+			if id, ok := v.X.(*ast.Ident); ok && isStrPtr(g.typeOf(v)) {
+				// &text for a local string: the pointer is only ever read, so it is the string's value now
+				return atomE("(some " + g.ident(id).text + ")")
+			}
 			if cl, ok := v.X.(*ast.CompositeLit); ok {
 				if st, ok := g.typeOf(cl).Underlying().(*types.Struct); ok && st.NumFields() == 1 && len(cl.Elts) == 1 {
 					return g.expr(cl.Elts[0]) // &T{x} for a one-field struct: the field
@@ -1545,11 +1593,15 @@ func (g *gl) call(c *ast.CallExpr) ex {
 			g.die(c, "yield outside `if !yield(x) { return }`")
 		}
 		if fn, ok := g.info.Uses[f].(*types.Func); ok && fn.Pkg() == g.pkg {
-			callee, ok := g.funcs[fn.Name()]
+			lname := fn.Name()
+			if a, ok := g.funcAlias[lname]; ok {
+				lname = a
+			}
+			callee, ok := g.funcs[lname]
 			if !ok || !callee.found {
 				g.die(c, "call of untranslated function "+fn.Name())
 			}
-			parts := []string{fn.Name()}
+			parts := []string{lname}
 			for _, gv := range callee.globals {
 				g.globals[gv] = true
 				parts = append(parts, "g_"+gv)
@@ -1642,6 +1694,9 @@ func (g *gl) call(c *ast.CallExpr) ex {
 					return g.expr(c.Args[0]) // values are immutable here
 				}
 				if pn.Imported().Path() == "bytes" && f.Sel.Name == "HasPrefix" && len(c.Args) == 2 {
+					return ex{text: "List.isPrefixOf " + g.expr(c.Args[1]).arg() + " " + g.expr(c.Args[0]).arg()}
+				}
+				if pn.Imported().Path() == "strings" && f.Sel.Name == "HasPrefix" && len(c.Args) == 2 {
 					return ex{text: "List.isPrefixOf " + g.expr(c.Args[1]).arg() + " " + g.expr(c.Args[0]).arg()}
 				}
 				if pn.Imported().Path() == "strings" && f.Sel.Name == "TrimSuffix" && len(c.Args) == 2 {
@@ -1905,6 +1960,9 @@ func (g *gl) readStringCall(c *ast.CallExpr) (string, string, bool) {
 	}
 	if !ok || sel.Sel.Name != "ReadString" || len(c.Args) != 1 {
 		return "", "", false
+	}
+	if lid, isLocal := sel.X.(*ast.Ident); isLocal && g.bufLocals[g.objOf(lid)] {
+		return g.nameOf(g.objOf(lid)), g.expr(c.Args[0]).arg(), true
 	}
 	inner, ok := sel.X.(*ast.SelectorExpr)
 	if !ok {
@@ -2479,6 +2537,19 @@ func (g *gl) stmt(w *wr, s ast.Stmt) {
 				g.die(v, "multi-value :=")
 			}
 			id := v.Lhs[0].(*ast.Ident)
+			if c, ok := v.Rhs[0].(*ast.CallExpr); ok && g.ioReaderBuf && len(c.Args) == 1 {
+				if sel, ok := c.Fun.(*ast.SelectorExpr); ok && sel.Sel.Name == "NewReader" {
+					if pk, ok := sel.X.(*ast.Ident); ok {
+						if pn, ok := g.info.Uses[pk].(*types.PkgName); ok && pn.Imported().Path() == "bufio" {
+							// br := bufio.NewReader(r): the buffered reader IS the remaining input of r
+							g.bufLocals[g.objOf(id)] = true
+							g.mut[g.objOf(id)] = true
+							w.line("let mut " + g.nameOf(g.objOf(id)) + " : BufRd := " + g.expr(c.Args[0]).opnd())
+							return
+						}
+					}
+				}
+			}
 			if c, ok := v.Rhs[0].(*ast.CallExpr); ok && g.hashers != nil {
 				if sel, ok := c.Fun.(*ast.SelectorExpr); ok {
 					if pk, ok := sel.X.(*ast.Ident); ok {
@@ -2735,6 +2806,13 @@ func (g *gl) stmt(w *wr, s ast.Stmt) {
 			return
 		}
 	case *ast.ExprStmt:
+		if c, ok := v.X.(*ast.CallExpr); ok && g.yield2 {
+			if id, ok := c.Fun.(*ast.Ident); ok && id.Name == "yield" && len(c.Args) == 2 {
+				// the consumer's answer is ignored by the Go code: the item is logged, nothing is asked
+				w.line("log := log ++ [" + g.yieldPair(c) + "]")
+				return
+			}
+		}
 		if c, ok := v.X.(*ast.CallExpr); ok && g.accumStmt(w, c) {
 			return
 		}
@@ -3165,6 +3243,21 @@ func (g *gl) ifStmt(w *wr, v *ast.IfStmt, kw string) {
 			return
 		}
 	}
+	// `if !yield(a, b) { return }` inside an iter.Seq2 closure
+	if g.yield2 && v.Init == nil && v.Else == nil && kw == "if " {
+		if u, ok := v.Cond.(*ast.UnaryExpr); ok && u.Op == token.NOT {
+			if c, ok := u.X.(*ast.CallExpr); ok {
+				if id, ok := c.Fun.(*ast.Ident); ok && id.Name == "yield" && len(c.Args) == 2 {
+					w.line("log := log ++ [" + g.yieldPair(c) + "]")
+					w.line("if !(yield log) then")
+					w.ind++
+					g.block(w, v.Body.List)
+					w.ind--
+					return
+				}
+			}
+		}
+	}
 	// `if !yield(x) { return }` inside an iter.Seq closure
 	if g.yieldT != "" {
 		if u, ok := v.Cond.(*ast.UnaryExpr); ok && u.Op == token.NOT {
@@ -3303,7 +3396,7 @@ func (g *gl) forStmt(w *wr, v *ast.ForStmt) {
 	}
 	label := g.pendLabel
 	g.pendLabel = ""
-	if v.Init == nil && v.Post == nil && v.Cond == nil && g.rdKind == "" && (g.yieldT == "" || (g.yieldName != "" && g.yieldName != "yield")) {
+	if v.Init == nil && v.Post == nil && v.Cond == nil && g.rdKind == "" && (g.yieldT == "" || (g.yieldName != "" && g.yieldName != "yield") || g.yield2) {
 		// for { … }: at most `fuel` iterations, out of fuel = `none` (no claim)
 		hasBreak := false
 		var scan func(n ast.Node, direct bool)
@@ -3791,6 +3884,9 @@ func (g *gl) findMutated(body ast.Node) {
 	g.mut = map[types.Object]bool{}
 	g.declared = map[string]bool{}
 	g.names = map[types.Object]string{}
+	if g.bufLocals == nil {
+		g.bufLocals = map[types.Object]bool{}
+	}
 	g.runeAsByte = map[types.Object]bool{}
 	g.takenMut = map[string]bool{}
 	g.nTmp, g.nWhile, g.loops = 0, 0, nil
@@ -4099,6 +4195,30 @@ func (g *gl) funcOrMethod(recvType, goName, name, rel, placeholder string) {
 			doc = "; `" + g.yieldName + "` is the consumer callback -- ANY deterministic consumer: it is given the list of all items handed to it so far, the current one last -- and the result is the log of items handed to it"
 		} else if rt == nil {
 			resT = "Unit"
+		} else if named, ok := rt.(*types.Named); ok && named.Obj().Pkg() != nil && named.Obj().Pkg().Path() == "iter" && named.Obj().Name() == "Seq2" {
+			// return func(yield func(A, B) bool) { … }: the items are pairs
+			if len(body) != 1 {
+				g.die(fd, "iter.Seq2 function body")
+			}
+			r, ok := body[0].(*ast.ReturnStmt)
+			if !ok || len(r.Results) != 1 {
+				g.die(fd, "iter.Seq2 function body")
+			}
+			fl, ok := r.Results[0].(*ast.FuncLit)
+			if !ok || len(fl.Type.Params.List) != 1 || len(fl.Type.Params.List[0].Names) != 1 || fl.Type.Params.List[0].Names[0].Name != "yield" {
+				g.die(fd, "iter.Seq2 closure")
+			}
+			g.yield2, g.yield2T = true, [2]types.Type{named.TypeArgs().At(0), named.TypeArgs().At(1)}
+			defer func() { g.yield2 = false }()
+			g.yieldT = "(" + paren(g.leanType(g.yield2T[0])) + " × " + paren(g.leanType(g.yield2T[1])) + ")"
+			g.yieldName = "yield"
+			g.iterFuncs[name] = true
+			params = append(params, "(yield : List "+g.yieldT+" → Bool)")
+			resT = "List " + g.yieldT
+			g.findMutated(fl.Body)
+			w.line("let mut log : " + resT + " := []")
+			body = fl.Body.List
+			doc = "; `yield` is the consumer -- ANY deterministic consumer, stateful ones included: it is given the list of all (item, error) pairs handed to it so far, the current one last -- and the result is the log of pairs handed to it"
 		} else if named, ok := rt.(*types.Named); ok && named.Obj().Pkg() != nil && named.Obj().Pkg().Path() == "iter" && named.Obj().Name() == "Seq" {
 			// return func(yield func(T) bool) { ... }
 			if len(body) != 1 {
@@ -5159,6 +5279,10 @@ func goLean(repo, out string) {
 	g5b.function("parseInts", "formats/sam", "def parseInts (strconv_Atoi : "+SATOI+") (strs : "+BB+") (p : List Int) : Option (GoErr × (List Int)) := none")
 	const SAMT = "((List UInt8) × Int × (List UInt8) × Int × Int × (List UInt8) × (List UInt8) × Int × Int × (List UInt8) × (List UInt8) × ("+TAGS+"))"
 	g5b.funcOrMethod("", "parseLine", "sam_parseLine", "formats/sam", "def sam_parseLine (hex_DecodeString : "+SHEX+") (strconv_Atoi : "+SATOI+") (strconv_ParseFloat : "+SPF+") (line : "+BB+") : Option ((Option "+SAMT+") × GoErr) := none")
+	g5b.ioReaderBuf = true
+	g5b.funcAlias = map[string]string{"parseLine": "sam_parseLine"}
+	const SHT = "(((Option (List UInt8)) × (Option "+SAMT+")) × GoErr)"
+	g5b.funcOrMethod("", "ReaderHeader", "sam_ReaderHeader", "formats/sam", "def sam_ReaderHeader (hex_DecodeString : "+SHEX+") (strconv_Atoi : "+SATOI+") (strconv_ParseFloat : "+SPF+") (fuel : Nat) (r : BufRd) (yield : List "+SHT+" → Bool) : Option (List "+SHT+") := none")
 	for _, n := range g5b.order {
 		w.WriteString(g5b.funcs[n].text)
 		w.WriteString("\n")
